@@ -478,8 +478,10 @@ PROPS = {
                    "is tied to the code by replaying the combinatorial algorithm on the bins and adjacency computed by the real "
                    "code (same clusters in the same order, same remainder order) and by independent oracles on the real "
                    "output. IndexMap and sort_unstable_by semantics are modelled.",
-        technique="Lean 4 theorems (accumulator-as-multiset invariant, fuel sufficiency) over an abstract combinatorial model "
-                  "+ replay correspondence on real bins/adjacency + oracles on the implementation's output",
+        technique="Lean 4 theorems (accumulator-as-multiset invariant, fuel sufficiency) over an abstract combinatorial model, "
+                  "instantiated to a carrier-generic model of get_bins / distance with law-free theorems (no duplicate bin, no "
+                  "panic, bounds) + replay correspondence on real bins/adjacency + bit-exact correspondence of get_bins and of "
+                  "the clustering computed from the points alone + oracles on the implementation's output",
         design_ref="DESIGN.md section 6, C15",
         rule="cases: random clouds, 1-5 helical tracks with noise, exact duplicates, 0..=400 points (2000 in thorough), other "
              "min/grid/distance parameters, size boundaries around 13, degenerate families; find_vertices on track lists of "
@@ -542,8 +544,9 @@ PROPS = {
                    "f64 statement of the guard equivalence fails only outside the property's domain (point separations below "
                    "1e-162 m, DESIGN 13.3 F11, informational); that no NaN/inf arises in-domain in the complex division and "
                    "in Nelder-Mead remains sampling (initial guess and its cost finite in every sampled case).",
-        technique="Lean 4 theorems on the combinatorial/algebraic logic + panic-site inventory; adversarial sampling of the "
-                  "f64 behaviour on the implementation",
+        technique="Lean 4 theorems on the combinatorial/algebraic logic, the initial guess (ordered field) and argmin's "
+                  "Nelder-Mead (order laws only) + panic-site inventory + bit-exact correspondence of the initial guess, the "
+                  "simplex, Nelder-Mead and both fits; adversarial sampling of the f64 behaviour on the implementation",
         design_ref="DESIGN.md section 6, C14",
         rule="cases: fits of clusters from ten degenerate families (exactly/nearly collinear with perturbations 1e-18..1e-2, "
              "repeated points, equal radii, vertical lines, circles through the origin, dyadic grids, ...), find_vertices on "
@@ -635,8 +638,10 @@ PROPS = {
                    "every event serial number) is checked on the real alpha-g-vertices binary by module c19 (one row per main "
                    "event whatever events fail to assemble, thread counts 1/2/5/16). Repaired defect F2 is reported again if it "
                    "returns.",
-        technique="Lean 4 totality theorem over the compositional event model + adversarial sampling of the float pipeline "
-                  "under catch_unwind (dev + release)",
+        technique="Lean 4 theorems: totality of event assembly over the compositional event model; for the composed model of "
+                  "vertex() an exhaustive panic-site inventory, totality without triggers and a characterisation of the result, "
+                  "over any carrier + correspondence check (bit-exact downstream of the wire deconvolution) + adversarial sampling "
+                  "of the float pipeline under catch_unwind (dev + release) + the real alpha-g-vertices binary on generated runs",
         design_ref="DESIGN.md section 6, C09",
         rule="cases: random bank names x bytes, extreme-valued CRC-valid events at every run class, duplicated/missing/"
              "foreign banks, simulated track events; each runs try_from_banks, timestamp, avalanches, vertex; distinct by "
